@@ -376,6 +376,7 @@ func (e *env) splitCase(c Case, pre *splitPre) {
 	if impl != 'k' {
 		return
 	}
+	e.dialDone(c, dl.sc, false)
 	// data phase: first packet was part of the stream, second one follows now
 	want := append(append([]byte(nil), splitData1...), splitData2...)
 	ss := &session{e: e, dl: dl, sc: dl.sc, conn: dl.conn}
@@ -562,6 +563,7 @@ func (e *env) dhEdgeCase(c Case) {
 			dl.sc.Wait(dl.op)
 			return
 		}
+		e.dialDone(c, dl.sc, false)
 		s := &session{e: e, dl: dl, sc: dl.sc, conn: dl.conn, mode: "dh", id: "dhedge"}
 		e.call("sess.new %s %s", s.id, vlib.Hex(seed))
 		rng := vlib.NewRng(e.seed*53 + c.Sub)
